@@ -54,6 +54,51 @@ CLAIMED["C09"] = {
     "technique": _T + ": call-graph agreement on one arg-min routine, guarded-state consistency and reaching-definition freshness of the result fields",
 }
 
+CLAIMED["C10"] = {
+    "text": "Decides structural necessary conditions of the Gaussian-mixture property for all data and queries: precisions are "
+            "recomputed from the current precision factors after the last M-step and before a run is stored as the best one; "
+            "on everything reachable from fit, the results of Cholesky, triangular solves, min/argmin and parameter estimation "
+            "are propagated as errors (never unwrapped or discarded) and the empty-component test precedes the division by the "
+            "component weights; the responsibilities' log-sum-exp exponentiates v - max(v), so probabilities stay finite "
+            "arbitrarily far from the data. Not decided: positive definiteness, weights summing to one.",
+    "design_ref": "DESIGN.md section 4, C10",
+    "note": "Trusted: rustc resolution/typeck, the fact dump.",
+    "technique": _T + ": ordering/dominance of refresh over store, error-propagation dataflow, shifted log-sum-exp chain rule",
+}
+
+CLAIMED["C12"] = {
+    "text": "Decides structural necessary conditions for logistic and Tweedie regression for all data: target-support, label, shape, "
+            "finiteness and initial-parameter validation return their errors before the optimiser runs and are applied to the very "
+            "data handed to it; log-sum-exp and soft-max exponentiate v - max(v); the predicted class is computed from the same "
+            "scores as the published probabilities (binary: threshold on predict_probabilities itself, >= threshold -> positive "
+            "class; multinomial: arg-max of the scores that predict_probabilities soft-maxes, label read from the stored class "
+            "list). Not decided: stationarity of the returned point, numeric range of probabilities.",
+    "design_ref": "DESIGN.md section 4, C12",
+    "note": "Trusted: rustc resolution/typeck, the fact dump; soft-max is monotone per row.",
+    "technique": _T + ": dominance of validation over the optimiser call, shifted log-sum-exp chain rule, common-producer check for decision and probabilities",
+}
+
+CLAIMED["C16"] = {
+    "text": "Decides structural necessary conditions for scalers and whiteners for all matrices: each dataset-level transform builds "
+            "its output from the input's own targets, weights, feature and target names and replaces only the records by the "
+            "array-level transform; every fit routine returns an error for zero samples before the first reduction; in the "
+            "scalers every division by a data-derived quantity (std, max-min, max-abs, row norm) is control-dependent on a zero "
+            "test of that divisor. Not decided: achieved means, variances, covariances.",
+    "design_ref": "DESIGN.md section 4, C16",
+    "note": "Trusted: rustc resolution/typeck, the fact dump. Divisions by singular values in the whiteners are outside the rule (the property claims whitening on full-rank data only).",
+    "technique": _T + ": provenance of the output dataset's containers, dominance of the empty-input guard, zero-guard contradiction rule on data-derived divisors",
+}
+
+CLAIMED["C18"] = {
+    "text": "Decides two structural necessary conditions for PCA for all data: the empty-dataset and embedding-size (outside 1..p) "
+            "tests return their errors before the records are reduced or decomposed; the divisor turning squared singular values "
+            "into explained variances derives from the training sample count recorded at fit time (or, for the ratio, cancels). "
+            "Not decided: orthonormality, ordering, spectral optimality, whitening covariance.",
+    "design_ref": "DESIGN.md section 4, C18",
+    "note": "Trusted: rustc resolution/typeck, the fact dump; the feature=blas branch cannot be built offline and is not analysed.",
+    "technique": _T + ": dominance of input guards over the decomposition, dataflow of the variance divisor to the recorded sample count",
+}
+
 CLAIMED["C13"] = {
     "text": "Decides structural necessary conditions of 'fitting terminates with a model whose published coefficients are feasible and "
             "undo the shrinking permutation', for every dataset and setting with shrinking enabled (which the suite never does): "
